@@ -212,7 +212,7 @@ class TDConfig:
 
     def __init__(self, K, widths, kmin, kmax, successive, index_std, birth, inner,
                  model_prop='bounded_discrete', extra=None, betas=(1.0,), swap_interval=1,
-                 window=6, inner_seed=0):
+                 window=6, inner_seed=0, birth_box=None):
         self.K, self.widths = K, list(widths)
         self.kmin, self.kmax = kmin, kmax
         self.successive, self.index_std = successive, index_std
@@ -222,6 +222,9 @@ class TDConfig:
         self.swap_interval = swap_interval
         self.window = window
         self.inner_seed = inner_seed
+        # a uniform birth may be narrower than the range the in-model jumps explore (legal): a component
+        # that has drifted out of the birth support can not be born there, so its death must have probability 0
+        self.birth_box = tuple(birth_box) if birth_box else None
 
     def describe(self):
         return dict(self.__dict__)
@@ -265,7 +268,7 @@ class TDConfig:
                 fam = 'normal'
             inner.append(families.make(fam, ns, doms, rng, window=self.window))
             if self.birth == 'uniform':
-                births.append(P.UniformBirth(ns, {n: BOX for n in ns}))
+                births.append(P.UniformBirth(ns, {n: (self.birth_box or BOX) for n in ns}))
             elif self.birth == 'normal':
                 births.append(P.NormalBirth(ns, {n: 1.0 for n in ns}, {n: 1.0 for n in ns}))
             else:
@@ -560,7 +563,12 @@ def plan_step(cfg, rng, k, active, want=None, std=None):
     prop = list(active)
     for c in chosen:
         prop[c] = not prop[c]
-    births = {i: [cfg.random_value(rng, True) for _ in range(cfg.widths[i])]
+    def birth_value():
+        if cfg.birth == 'uniform' and getattr(cfg, 'birth_box', None):
+            lo_b, hi_b = cfg.birth_box
+            return round(rng.uniform(lo_b, hi_b) * 64) / 64.0
+        return cfg.random_value(rng, True)
+    births = {i: [birth_value() for _ in range(cfg.widths[i])]
               for i in range(K) if dk > 0 and prop[i] and not active[i]}
     moves = {i: [cfg.random_value(rng, True) for _ in range(cfg.widths[i])]
              for i in range(K) if prop[i] and active[i]}
@@ -1562,6 +1570,16 @@ def c11_pair(cfg, beta, x, plan, law):
         if fwd['ar'] != 0.0 or fwd['accepted']:
             return 'proposal outside the prior accepted with probability %r' % fwd['ar'], rec
         return None, rec
+    if dk < 0 and cfg.birth == 'uniform' and getattr(cfg, 'birth_box', None):
+        lo_b, hi_b = cfg.birth_box
+        dead = [i for i in range(K) if ax[i] and not ay[i]]
+        if any(not (lo_b <= v <= hi_b) for i in dead for v in cx[i]):
+            # no birth can produce x from x': q(x|x') = 0, so the move must have probability 0
+            rec['reverse_impossible'] = True
+            if fwd['ar'] != 0.0:       # (the scripted uniform may be exactly 0.0, which the code's `u <= ar` accepts)
+                return ('the death of a component whose value lies outside the support of its birth distribution '
+                        '(q(x|x\') = 0) was accepted with probability %r' % fwd['ar']), rec
+            return None, rec
     # reverse plan: undo everything
     rplan = {'z': index_z(cfg, -dk, random.Random(1)) if (cfg.successive or dk) else 0.0,
              'chosen': list(plan['chosen']),
@@ -1604,7 +1622,8 @@ def gen_c11_cfg(rng, n):
     kmax = rng.choice([K, K, K - 1]) if K - 1 > kmin else K
     return TDConfig(K, widths, kmin, kmax, [True, False][n % 2], rng.choice([0.75, 1.0, 2.0]),
                     BIRTHS[n % 3], C11_INNER[(n // 3) % len(C11_INNER)],
-                    extra=[None, 'normal'][(n // 2) % 2], inner_seed=rng.randint(0, 10 ** 6))
+                    extra=[None, 'normal'][(n // 2) % 2], inner_seed=rng.randint(0, 10 ** 6),
+                    birth_box=(1.0, 3.0) if (BIRTHS[n % 3] == 'uniform' and n % 2 == 0) else None)
 
 
 def c11_search(seed, ncfg, pairs_per_cfg):
